@@ -172,6 +172,65 @@ func (w *W) BuildHere(files []File, flags ...string) BuildResult {
 	return br
 }
 
+// ReachModes are the ways BuildReached lets the tool reach its input files (all denote the same bytes).
+var ReachModes = []string{"symlink", "absolute-symlink", "symlink-chain", "hard-link", "through-a-symlinked-directory", "dot-slash", "absolute-path", "pattern-over-symlinks", "only-the-first-is-a-symlink", "only-the-last-is-a-symlink"}
+
+// BuildReached writes the files below ./store in a fresh directory and names them to the tool in the given way.
+func (w *W) BuildReached(files []File, mode string, flags ...string) BuildResult {
+	dir := w.FreshDir()
+	os.MkdirAll("store", 0o755)
+	args := []string{}
+	for i, f := range files {
+		base := filepath.Base(f.Name)
+		target := filepath.Join("store", base)
+		os.WriteFile(target, []byte(f.Content), 0o644)
+		link := func() { os.Symlink(target, base) }
+		switch mode {
+		case "symlink", "pattern-over-symlinks":
+			link()
+			args = append(args, "-i", base)
+		case "absolute-symlink":
+			os.Symlink(filepath.Join(dir, target), base)
+			args = append(args, "-i", base)
+		case "symlink-chain":
+			os.Symlink(target, base+".hop")
+			os.Symlink(base+".hop", base)
+			args = append(args, "-i", base)
+		case "hard-link":
+			os.Link(target, base)
+			args = append(args, "-i", base)
+		case "through-a-symlinked-directory":
+			os.Symlink("store", "linked")
+			args = append(args, "-i", filepath.Join("linked", base))
+		case "dot-slash":
+			args = append(args, "-i", "./"+target)
+		case "absolute-path":
+			args = append(args, "-i", filepath.Join(dir, target))
+		case "only-the-first-is-a-symlink", "only-the-last-is-a-symlink":
+			if (mode == "only-the-first-is-a-symlink") == (i == 0) && (i == 0 || i == len(files)-1) {
+				link()
+				args = append(args, "-i", base)
+			} else {
+				args = append(args, "-i", target)
+			}
+		default:
+			panic("BuildReached: " + mode)
+		}
+	}
+	if mode == "pattern-over-symlinks" {
+		args = []string{"-i", "*.yaml"}
+	}
+	args = append(args, "-o", "out.go")
+	args = append(args, flags...)
+	r := Tool(DefaultVersion, DefaultBuildInfo, args...)
+	br := BuildResult{Run: r}
+	if b, err := os.ReadFile("out.go"); err == nil {
+		br.OutExists = true
+		br.Output = string(b)
+	}
+	return br
+}
+
 // BuildPatterns writes the files into a fresh directory and passes the given -i patterns (relative to it).
 func (w *W) BuildPatterns(files []File, patterns []string, flags ...string) BuildResult {
 	w.FreshDir()
